@@ -11,6 +11,8 @@ classes with user temporaries, random expression trees over differentiable leave
 rules at the right inner points).  Base points are kept away from documented kinks.
 """
 
+import itertools
+
 import numpy as np
 import odl
 
@@ -102,6 +104,9 @@ def check(ctx, comp, cfg, op, rng, name='', positive=False, small=False):
         why = fd.verdict(errs)
         if why and not fd.quotient_sequence_converged(op.range):
             ctx.skip('difference quotients do not converge in the step range (oscillatory / explosive expression)')
+            why = None
+        if why and not fd.resolvable(op.range):
+            ctx.skip('difference quotients do not resolve the derivative to 1e-6 at any step (no window between truncation and rounding)')
             why = None
         if why:
             ctx.violation(comp, cfg, why, name=name, errors=['%.1e' % e for e in errs])
@@ -218,6 +223,10 @@ def specials(rng):
         yield 'BroadcastOperator/nonlinear/' + n, lambda sp=sp: odl.BroadcastOperator(P2(), odl.IdentityOperator(sp))
         yield 'ReductionOperator/nonlinear/' + n, lambda sp=sp: odl.ReductionOperator(P2(), P3())
         yield 'ProductSpaceOperator/nonlinear/' + n, lambda sp=sp: odl.ProductSpaceOperator([[P2(), odl.IdentityOperator(sp)], [None, P3()]])
+        yield 'ProductSpaceOperator/nonlinear-off-diagonal/' + n, lambda sp=sp: odl.ProductSpaceOperator([[P2(), P3()], [P3(), None]])
+        yield 'ProductSpaceOperator/nonlinear-off-diagonal-only/' + n, lambda sp=sp: odl.ProductSpaceOperator([[None, P2()], [P3(), None]])
+        yield 'ProductSpaceOperator/nonlinear-row/' + n, lambda sp=sp: odl.ProductSpaceOperator([[P3(), P2()]])
+        yield 'ProductSpaceOperator/nonlinear-column/' + n, lambda sp=sp: odl.ProductSpaceOperator([[P3()], [P2()]])
         yield 'OperatorSum/user-tmp/' + n, lambda sp=sp: odl.OperatorSum(P2(), P3(), tmp_ran=sp.element(), tmp_dom=sp.element())
         yield 'OperatorComp/user-tmp/' + n, lambda sp=sp: odl.OperatorComp(P2(), P3(), sp.element())
         yield 'OperatorRightScalarMult/user-tmp/' + n, lambda sp=sp: odl.operator.operator.OperatorRightScalarMult(P3(), -1.5, sp.element())
@@ -233,6 +242,55 @@ def specials(rng):
     yield 'OperatorSum/domain!=range/user-tmp', lambda: odl.OperatorSum(
         odl.MatrixOperator(rng.normal(size=(2, 3)), domain=sp, range=sp2) * odl.PowerOperator(sp, 2),
         odl.MatrixOperator(rng.normal(size=(2, 3)), domain=sp, range=sp2) * odl.PowerOperator(sp, 3), tmp_ran=sp2.element(), tmp_dom=sp.element())
+
+
+def run_numerical(ctx):
+    """NumericalDerivative / NumericalGradient are documented one-sided / central difference approximations: for every
+    method they must approximate the analytic derivative to their documented order (a sign or operand slip is O(1) off)."""
+    from odl.solvers.functional.derivatives import NumericalDerivative, NumericalGradient
+    rng = ctx.rng('numerical')
+    for sname, sp in (('r4', odl.rn(4)), ('d5', odl.uniform_discr(0, 1, 5)), ('r4w', odl.rn(4, weighting=1.7))):
+        ops = [('Power3', odl.PowerOperator(sp, 3)), ('sin', odl.ufunc_ops.sin(sp)), ('Power2+v', odl.PowerOperator(sp, 2) + util.rand_element(sp, rng))]
+        for (oname, op), method in itertools.product(ops, ('forward', 'backward', 'central')):
+            for step in (None, 1e-4):
+                x = away_from_kinks(sp, rng, False, 0.3, 1.5)
+                d = direction(sp, rng)
+                ctx.ev('numerical-derivative')
+                ctx.case('numerical;NumericalDerivative;%s;%s' % (oname, sname), (method, step))
+                cfg = '%s;%s' % (method, 'default-step' if step is None else 'step-given')
+                try:
+                    ND = NumericalDerivative(op, x, method=method, **({} if step is None else {'step': step}))
+                    got = util.to_cvec(sp, ND(d))
+                    ref = util.to_cvec(sp, op.derivative(x)(d))
+                    tol = 1e-2 * max(1.0, float(np.abs(ref).max()))
+                    if not np.allclose(got, ref, rtol=0, atol=tol):
+                        ctx.violation('NumericalDerivative', cfg, 'not-an-approximation-of-the-derivative', operator=oname,
+                                      maxdiff=float(np.abs(got - ref).max()))
+                except Exception as e:
+                    ctx.violation('NumericalDerivative', cfg, 'raises:' + type(e).__name__, message=str(e)[:200])
+        f = S.L2NormSquared(sp) * odl.PowerOperator(sp, 2) if not isinstance(sp, odl.DiscretizedSpace) else S.L2NormSquared(sp)
+        for method in ('forward', 'backward', 'central'):
+            x = away_from_kinks(sp, rng, False, 0.3, 1.5)
+            d = direction(sp, rng)
+            ctx.ev('numerical-derivative')
+            ctx.case('numerical;NumericalGradient;%s' % sname, method)
+            try:
+                NG = NumericalGradient(f, method=method)
+                got = util.to_cvec(sp, NG(x))
+                ref = util.to_cvec(sp, f.gradient(x))
+                tol = 1e-2 * max(1.0, float(np.abs(ref).max()))
+                if not np.allclose(got, ref, rtol=0, atol=tol):
+                    ctx.violation('NumericalGradient', method, 'not-an-approximation-of-the-gradient', maxdiff=float(np.abs(got - ref).max()))
+                # its derivative: a NumericalDerivative of the numerical gradient ~ Hessian action = derivative of the gradient
+                hd = util.to_cvec(sp, NG.derivative(x)(d))
+                refh = util.to_cvec(sp, f.gradient.derivative(x)(d))
+                tol = 5e-2 * max(1.0, float(np.abs(refh).max()))
+                if not np.allclose(hd, refh, rtol=0, atol=tol):
+                    ctx.violation('NumericalGradient.derivative', method, 'not-an-approximation-of-the-derivative', maxdiff=float(np.abs(hd - refh).max()))
+            except (odl.OpNotImplementedError, NotImplementedError):
+                ctx.skip('no analytic reference')
+            except Exception as e:
+                ctx.violation('NumericalGradient', method, 'raises:' + type(e).__name__, message=str(e)[:200])
 
 
 def run_specials(ctx):
@@ -286,6 +344,8 @@ def run(ctx):
     cov.arm()
     run_registry(ctx)
     run_specials(ctx)
+    if ctx.shard == 0:
+        run_numerical(ctx)
     run_trees(ctx)
     cov.disarm()
     n_exec, n_hit, unreached = cov.report()
